@@ -21,7 +21,8 @@ type gchan struct {
 	// rendezvous support (goroutine mode)
 	sendq []*waiter
 	recvq []*waiter
-	recvWaiting int // receivers parked on this channel (makes an unbuffered select-send ready)
+	recvWaiting int
+	offers      []*offer // parked operations of goroutine mode
 }
 
 type waiter struct {
@@ -106,12 +107,12 @@ func (i *interpreter) chanClose(fr *frame, ch value) {
 	if c == nil {
 		panic(targetPanic{iface{i.runtimeErrorString, "close of nil channel"}})
 	}
-	if c.closed {
-		panic(targetPanic{iface{i.runtimeErrorString, "close of closed channel"}})
-	}
 	if i.sched != nil {
 		i.sched.closeChan(fr, c)
 		return
+	}
+	if c.closed {
+		panic(targetPanic{iface{i.runtimeErrorString, "close of closed channel"}})
 	}
 	c.closed = true
 }
